@@ -11,7 +11,7 @@ from .base import Verdict, sig_of, tagged, crash_check
 
 ID = "C19"
 LEVEL = "exploration"
-RUNS = (500, 20000)
+RUNS = (1500, 40000)
 RULE = ("one seeded two-layer tree under $ECONFTOOL_ROOT (/usr/etc, /etc; main files and drop-ins; contents with only group-less "
         "keys, only sections, or both; optionally one malformed member) or a single absolute file; --delimiters in {=, :, spaces, "
         "'= ', '\\t'-escape} and --comment in {#, ;}; the real tool is spawned for show, syntax and cat and compared with the "
@@ -22,10 +22,24 @@ COMPONENTS = {
     "stub": ["none inside the tool (no interposition there); in-process side as usual"],
 }
 
-DELIMS = [("=", "=", "="), (":", ":", ":"), ("spaces", " \t\x0c\n\r\x0b", " "), ("= ", "= ", "="), ("\\t=", "\t=", "\t"), (" \\t", " \t", " ")]
+DELIMS = [("=", "=", "="), (":", ":", ":"), ("spaces", " \t\x0c\n\r\x0b", " "), ("= ", "= ", "="), ("\\t=", "\t=", "\t"), (" \\t", " \t", " "),
+          # several different escapes in one option value (each is translated by its own pass over a shared static buffer)
+          ("=\\t\\f", "=\t\x0c", "="), ("= \\t\\n", "= \t\n", "="), (":\\v\\t", ":\x0b\t", ":"), ("\\f=\\t", "\x0c=\t", "=")]
 
 
-def contents(rng, fid, shape, dch):
+def contents(rng, fid, shape, dch, multiline=False):
+    ents = _contents(rng, fid, shape, dch)
+    if multiline:
+        for e in ents:
+            r = rng.random()
+            if r < 0.25:
+                e[2] = e[2] + "\n   cont%d" % fid + ("\n\tthird line" if rng.chance(0.3) else "")
+            elif r < 0.35:
+                e[2] = '"quoted %s"' % e[2]
+    return ents
+
+
+def _contents(rng, fid, shape, dch):
     ents = []
     n = 0
     if shape in ("nogroup", "both"):
@@ -45,6 +59,8 @@ def gen_world(rng, i, tier):
     cm = rng.pick(["#", ";"])
     shape = ["nogroup", "sections", "both"][i % 3]
     w = {"kind": "tool", "delim": list(dl), "comment": cm, "shape": shape, "cfg": gen.io_cfg(rng, faults=False)}
+    ml = dl[1] in ("=", ":") and rng.chance(0.5)      # continuation lines exist only for non-blank delimiter sets
+    w["multiline"] = ml
     base = rng.pick(["app", "my.app", "x"])
     w["base"] = base
     nodes = []
@@ -52,16 +68,16 @@ def gen_world(rng, i, tier):
     if rng.chance(0.15):
         w["single"] = True
         fid += 1
-        nodes.append({"p": "$ROOT/some/dir/%s.conf" % base, "t": "f", "entries": contents(rng, fid, shape, dl[2])})
+        nodes.append({"p": "$ROOT/some/dir/%s.conf" % base, "t": "f", "entries": contents(rng, fid, shape, dl[2], ml)})
     else:
         w["single"] = False
         for layer in ("$ROOT/usr/etc", "$ROOT/etc"):
             if rng.chance(0.6):
                 fid += 1
-                nodes.append({"p": "%s/%s.conf" % (layer, base), "t": "f", "entries": contents(rng, fid, rng.pick([shape, shape, "both", "nogroup"]), dl[2])})
+                nodes.append({"p": "%s/%s.conf" % (layer, base), "t": "f", "entries": contents(rng, fid, rng.pick([shape, shape, "both", "nogroup"]), dl[2], ml)})
             for nm in rng.subset(["10-a", "9-b", "zz", "A"], 0, 3):
                 fid += 1
-                nodes.append({"p": "%s/%s.conf.d/%s.conf" % (layer, base, nm), "t": "f", "entries": contents(rng, fid, rng.pick([shape, "both", "sections"]), dl[2])})
+                nodes.append({"p": "%s/%s.conf.d/%s.conf" % (layer, base, nm), "t": "f", "entries": contents(rng, fid, rng.pick([shape, "both", "sections"]), dl[2], ml)})
     w["nodes"] = nodes
     if nodes and rng.chance(0.25):
         w["malformed"] = [rng.randrange(len(nodes)), rng.pick(["[oops", "[a] x", "[]"]), rng.randrange(4)]
@@ -92,7 +108,7 @@ def build_plans(world):
     base = world["base"]
     target = ("$ROOT/some/dir/%s.conf" % base) if world["single"] else "%s.conf" % base
     common = ["--delimiters=" + arg_d, "--comment=" + cm]
-    env = {"ECONFTOOL_ROOT": "$ROOT", "ASAN_OPTIONS": "exitcode=77:detect_leaks=0", "UBSAN_OPTIONS": "print_stacktrace=1:halt_on_error=1:exitcode=77", "HOME": "$ROOT/home"}
+    env = {"ECONFTOOL_ROOT": "$ROOT", "ASAN_OPTIONS": "exitcode=77:detect_leaks=0:replace_str=0:intercept_strlen=0:intercept_strchr=0:intercept_strndup=0", "UBSAN_OPTIONS": "print_stacktrace=1:halt_on_error=1:exitcode=77", "HOME": "$ROOT/home"}
     ops = []
     for cmd in ("show", "syntax", "cat"):
         ops.append({"op": "tool", "argv": ["$TOOL", cmd] + common + [target], "env": env, "tag": "tool_" + cmd})
@@ -118,7 +134,15 @@ def run_case(ctx, world, plans):
         for op in q["ops"]:
             if op.get("op") == "tool":
                 op["argv"] = [ctx.build.tool() if a == "$TOOL" else a for a in op["argv"]]
-        out.append(ex.run(q))
+        r = ex.run(q)
+        # a sanitizer report carries pids and addresses: keep only its kind so that results stay replayable
+        for o in r.get("ops", []):
+            if isinstance(o.get("err"), str) and "==WARNING" in o["err"]:
+                o["err"] = re.sub(r"==\d+==WARNING:[^\n]*?(?=(==\d+==|\n|$))", "", o["err"])
+            if isinstance(o.get("err"), str) and "Sanitizer" in o["err"]:
+                m = re.search(r"ERROR: \w+Sanitizer: ([^\s]+)", o["err"])
+                o["err"] = "SANITIZER " + (m.group(1) if m else "report") + " in " + ",".join(sorted(set(re.findall(r" in (\w+) /", o["err"])))[:6])
+        out.append(r)
     return out
 
 
@@ -165,7 +189,7 @@ def lib_items(dump):
 
 
 def sanitizer_hit(r):
-    return r.get("exit") == 77 or r.get("signal") or "AddressSanitizer" in (r.get("err") or "") or "runtime error:" in (r.get("err") or "")
+    return r.get("exit") == 77 or r.get("signal") or "SANITIZER" in (r.get("err") or "") or "runtime error:" in (r.get("err") or "")
 
 
 def check(world, plans, results):
@@ -224,7 +248,10 @@ def check(world, plans, results):
                 v.fail("cat:content", "econftool cat content differs from the per-file listings: expected %r got %r" % (exp[:5], got[:5]))
     nfiles = len(world["nodes"])
     v.nontrivial = nfiles >= 2 and world["shape"] == "both"
-    v.sig = sig_of(world["shape"], min(nfiles, 5), world["delim"][0], world["comment"], bool(world.get("malformed")), world["single"], lib["rc"])
+    v.sig = sig_of(world["shape"], min(nfiles, 5), world["delim"][0], world["comment"], bool(world.get("malformed")), world["single"], lib["rc"], world.get("multiline"),
+                   sorted(set(n["p"].split("/")[-2][-2:] + str(len(n.get("entries", []))) for n in world["nodes"])))
+    if world.get("multiline"):
+        v.probe("multiline_values")
     v.probe("shape_" + world["shape"])
     if world.get("malformed"):
         v.probe("malformed_member")
